@@ -85,4 +85,20 @@ theorem sortPoints_twice {as1 as2 : List Int → List Nat} (h1 : IsArgsort as1) 
     rw [← hcoord2, ← hcoords, hcoord1, hf2]
     rfl
 
+/-- distinguishability of coincident points does not depend on the argsort routine used inside
+    the "minimal adjacent centre" (`KM_kvec_unique`): transfer of the hypothesis `hdist` -/
+theorem hdist_transfer {as1 as2 : List Int → List Nat} (h1 : IsArgsort as1) (h2 : IsArgsort as2)
+    {t : MeshTol} {A B M : Nat} {m : Mesh} {cands : List (List Int)} (hyp : PointHypP t A B M m cands)
+    (hdist : ∀ a ∈ pitems m, ∀ b ∈ pitems m, kvec (KC A m) m.dim 0 a = kvec (KC A m) m.dim 0 b →
+      kvec (KM A cands as1 t m) m.dim 0 a = kvec (KM A cands as1 t m) m.dim 0 b → a = b) :
+    ∀ a ∈ pitems m, ∀ b ∈ pitems m, kvec (KC A m) m.dim 0 a = kvec (KC A m) m.dim 0 b →
+      kvec (KM A cands as2 t m) m.dim 0 a = kvec (KM A cands as2 t m) m.dim 0 b → a = b := by
+  intro a ha b hb he hm
+  by_contra hne
+  obtain ⟨csa, hca, hsa⟩ := hyp.centres a ha b hb hne he
+  obtain ⟨csb, hcb, hsb⟩ := hyp.centres b hb a ha (Ne.symm hne) he.symm
+  have ea := KM_kvec_unique h1 h2 hyp.sepC hyp.dimPos hca hsa
+  have eb := KM_kvec_unique h1 h2 hyp.sepC hyp.dimPos hcb hsb
+  exact hne (hdist a ha b hb he (by rw [ea, eb]; exact hm))
+
 end Fc.Glue
